@@ -625,6 +625,7 @@ func genC16(g *G) {
 	for i := 0; i < g.N(100, 2000); i++ {
 		g.EmitImpl(J{"op": "offchain.decode", "raw": hexs(cdcRndBytes(g, 14))}, "offchain-raw")
 	}
+	genOffchainDamaged(g)
 	// ---- Mercury on-chain config: sequences of encodes, results retained
 	for i := 0; i < g.N(40, 600); i++ {
 		cfgs := []any{}
@@ -827,6 +828,13 @@ func monC16(op J, res any) (viol []Violation, nontrivial bool) {
 			}
 		}
 	case "offchain.decode":
+		if ok {
+			// whatever the bytes were, a configuration that decodes without error is a valid one
+			ver, iv := jBig(jget(r["ok"], "version")), jBig(jget(r["ok"], "interval"))
+			if !((ver.Sign() == 0 && iv.Sign() == 0) || (ver.Cmp(big.NewInt(1)) == 0 && iv.Sign() > 0)) {
+				bad("offchain-decoded-invalid", fmt.Sprintf("DecodeOffchainConfig returned version %v interval %v without error", ver, iv))
+			}
+		}
 		if jBool(op["unparseable"]) {
 			return
 		}
@@ -957,4 +965,44 @@ func cdcHasNilInner(v any) bool {
 		return cdcHasNilInner(m["v"])
 	}
 	return false
+}
+
+// genOffchainDamaged: valid off-chain config encodings with a damaged tail (truncated, garbage appended):
+// protobuf keeps the fields it parsed before failing, so a decoder that copies before checking the error
+// would hand out a half-parsed, unvalidated configuration
+func genOffchainDamaged(g *G) {
+	for _, ver := range []uint32{0, 1, 2} {
+		for _, iv := range []uint64{0, 1, 1e9} {
+			enc, err := llo.OffchainConfig{ProtocolVersion: ver, DefaultMinReportIntervalNanoseconds: iv}.Encode()
+			if err != nil {
+				continue
+			}
+			for cut := 1; cut <= 3 && cut < len(enc); cut++ {
+				g.EmitImpl(J{"op": "offchain.decode", "raw": hexs(enc[:len(enc)-cut])}, "offchain-raw", "truncated")
+			}
+			g.EmitImpl(J{"op": "offchain.decode", "raw": hexs(append(append([]byte{}, enc...), 0xff))}, "offchain-raw", "garbage-tail")
+			g.EmitImpl(J{"op": "offchain.decode", "raw": hexs(append(append([]byte{}, enc...), 0x10))}, "offchain-raw", "garbage-tail")
+		}
+	}
+	// field 1 set to 1 and then a truncated field 2
+	g.EmitImpl(J{"op": "offchain.decode", "raw": "080110"}, "offchain-raw", "truncated")
+	g.EmitImpl(J{"op": "offchain.decode", "raw": "08011080"}, "offchain-raw", "truncated")
+}
+
+func init() {
+	// C03 quantifies over accepted configurations: the same damaged encodings under C03's name
+	RegGen("C03", "plus damaged off-chain config encodings (a configuration that decodes without error must be a valid one)", genOffchainDamaged)
+	RegMonitor("C03", func(op J, res any) (viol []Violation, nontrivial bool) {
+		if jStr(op["op"]) != "offchain.decode" {
+			return nil, false
+		}
+		vs, _ := monC16(op, res)
+		for _, v := range vs {
+			if v.Sig == "C16/offchain-decoded-invalid" {
+				v.Sig = "C03/invalid-config-accepted"
+				viol = append(viol, v)
+			}
+		}
+		return viol, false
+	})
 }
